@@ -18,7 +18,8 @@ WRAPS = ("pthread_mutex_lock pthread_mutex_unlock pthread_cond_wait pthread_cond
          "pthread_cond_signal pthread_cond_broadcast pthread_create pthread_join clock_gettime "
          "nanosleep epoll_wait nni_random sendmsg send writev readv "
          "nni_atomic_flag_test_and_set nni_atomic_dec_nv nni_atomic_inc nni_atomic_dec "
-         "nni_atomic_cas nni_atomic_swap_bool nni_atomic_get_bool nni_atomic_get").split()
+         "nni_atomic_cas nni_atomic_swap_bool nni_atomic_get_bool nni_atomic_get "
+         "nni_alloc nni_zalloc nni_free").split()
 
 # property -> (harness source, engine kind, level, rule text)
 CHECKS = {}
